@@ -9,4 +9,17 @@ BOUNDS = {
                         "oracle: Go's own <, ==, +, -, *, /, % on the same symbolic operands inside the harness (encoded by the same engine as bvslt/bvult/fp.lt/... ), "
                         "i.e. the statement's 'exact mathematical order' and 'wrap modulo 2^64 as in Go'"],
     },
+    "C14": {
+        "quick": "sequences of 3 operations from the empty hash; op in {hset, hdel, lookup-only}; key kind in {int, symbol(symbolic number), char, one-element array [int]}; key payloads symbolic (ints in [-2^31,2^31), symbol numbers in [0,2^20), chars in [0,0x110000)), value payloads symbolic int64; after every step: len, keys, hpair i for every live i, hget and hget-with-default of every key used so far.",
+        "thorough": "as quick with sequences of 4 operations.",
+        "assumptions": ["vFormatOpaque: decimal formatting of symbolic numbers inside error messages returns a placeholder (no assertion inspects message text)",
+                        "key identity in the model: same key iff (== k1 k2) holds without error (int/char by numeric value, symbols by number), [k] denotes k",
+                        "outside: string keys (fnv hashing loop over symbolic bytes), range iteration builtins, printed form and json of the hash (C11/C12), longer histories"],
+    },
+    "C19": {
+        "quick": "arbitrary table of m<=2 entries (names of 1..3 symbolic bytes, numbers in [1,2^30)) satisfying the bijection invariant, counter in [1,100) unrelated to the table; one MakeSymbol(name of 1..3 symbolic bytes) or GenSymbol(1 symbolic prefix byte) (+ a second GenSymbol); family histories of 3 operations over {make(p0|p1), gensym, duplicate, clone}, <=3 interpreters, two 2-byte symbolic pool names, counter in [1,30).",
+        "thorough": "m<=3, names 1..4 bytes, counter in [1,1000); family histories of 4 operations.",
+        "assumptions": ["decimal formatting of the symbolic counter uses the engine's digit model (fork on digit count, digit_j = (n/10^j)%10), differentially validated against strconv by the conformance vectors",
+                        "outside: str2sym/gensym at script level through the reader, names longer than the bound, counters beyond the bound"],
+    },
 }
